@@ -166,6 +166,32 @@ elif op == "script":
                     bad.append(f"get returned wrong bytes at step {step}")
         except BaseException as e:
             print("step", step, "raised", type(e).__name__, e)
+elif op == "reopen":
+    # reopen (fresh handle and stale handle) of files whose records include empty keys' neighbours, empty VALUES and a last record with an
+    # empty value: every complete record is listed with its value, in both modes
+    for vals in ([b"one", b"", b"three"], [b"one", b"two", b""], [b""], []):
+        pp = os.path.join(d, f"re_{len(vals)}_{sum(map(len, vals))}.ukv")
+        with UKVFile(pp, "w", h1=b"TESTH1", h2=b"c", b0=b"d") as f:
+            for i, v in enumerate(vals):
+                f.put(b"k%d" % i, v)
+        stale = UKVFile(pp, "r")
+        stale.close()
+        with UKVFile(pp, "a") as f2:
+            f2.put(b"later", b"")
+        want = {b"k%d" % i: v for i, v in enumerate(vals)}
+        want[b"later"] = b""
+        for mode in ("r", "a"):
+            for hname, hh in (("fresh", None), ("stale", stale)):
+                try:
+                    g = UKVFile(pp, mode) if hh is None else (hh.open(mode) or hh)
+                    got = {k: g.get(k) for k in g.keys()}
+                    g.close()
+                    if got != want:
+                        bad.append(f"reopen ({hname} handle, mode {mode}) of a file with records {[(k, len(v)) for k, v in want.items()]} lists {[(k, len(v)) for k, v in got.items()]}")
+                except BaseException as ex:
+                    bad.append(f"reopen ({hname} handle, mode {mode}) raised {type(ex).__name__}: {ex}")
+        if os.path.getsize(pp) < 32:
+            bad.append("file truncated by reopening")
 elif op == "reopen-header":
     for h2, b0 in ((b"comment", b"descr"), (b"comment", b""), (b"", b"descr"), (b"", b""), (b"x" * int(cap(w.get("h2len", 3), 0, 2000)), b"y" * int(cap(w.get("b0len", 0), 0, 2000)))):
         pp = os.path.join(d, f"hdr_{len(h2)}_{len(b0)}.ukv")
